@@ -13,7 +13,8 @@ var WideSizes = []int{1, 2, 3, 4, 5, 6, 7, 8, 9, 10, 11, 12, 13, 14, 15, 16, 17,
 // WideKinds are the list-like constructs of the language.
 var WideKinds = []string{"project", "project-names", "extend", "extend-unnamed", "summarize-aggs", "summarize-keys", "sort", "in", "call-args", "strcat", "and", "or", "plus", "minus",
 	"join-conds", "render-props", "lets", "let-chain", "statements", "wheres", "extends", "parens", "qualified", "neg-parens", "not-nest", "iff-nest", "index-nest", "joins",
-	"in-consts", "let-uses", "where-consts", "in-lits", "in-plain"}
+	"in-consts", "let-uses", "where-consts", "in-lits", "in-plain",
+	"in-repeats", "in-paren-lits", "joins-nested", "index-parens", "lets-shadowing", "render-props-repeated"}
 
 // WideSizesBig continues WideSizes up to a few thousand elements.
 var WideSizesBig = []int{512, 999, 1000, 1001, 1023, 1024, 1025, 2047, 2048, 2049, 2100, 4097}
@@ -240,6 +241,63 @@ func Wide(kind string, n int) *Program {
 			e = Idx(col(i), e)
 		}
 		return q(&Op{K: "extend", Cols: []Col{{Name: id("s"), X: e}}})
+	case "in-repeats":
+		// few distinct values, each many times, as numbers and as strings of the same text
+		e := In(Name("x"))
+		for i := 0; i < n; i++ {
+			if i%3 == 2 {
+				e.Kids = append(e.Kids, StrLit(fmt.Sprint(i%5), i%2 == 0))
+			} else {
+				e.Kids = append(e.Kids, Num(fmt.Sprint(i%5)))
+			}
+		}
+		return q(&Op{K: "where", X: e})
+	case "in-paren-lits":
+		// literals, some of them in parentheses
+		e := In(Name("x"))
+		for i := 0; i < n; i++ {
+			var v *E = Num(fmt.Sprint(i))
+			if i%4 == 2 {
+				v = StrLit(fmt.Sprint("s", i), false)
+			}
+			if i%7 == 3 || i == n-1 {
+				v = Paren(v)
+			}
+			e.Kids = append(e.Kids, v)
+		}
+		return q(&Op{K: "where", X: e})
+	case "joins-nested":
+		// every right-hand side ends in a join of its own, n levels deep
+		var inner *Pipe
+		for i := n - 1; i >= 0; i-- {
+			p := &Pipe{Table: Ident{Name: fmt.Sprintf("U%d", i)}}
+			if inner != nil {
+				p.Ops = append(p.Ops, &Op{K: "join", Kind: []string{"", "inner", "leftouter"}[i%3], Right: inner, Conds: []*E{Name("k")}})
+			}
+			inner = p
+		}
+		return q(&Op{K: "join", Right: inner, Conds: []*E{Name("k")}})
+	case "index-parens":
+		// an index whose subscript sits in n pairs of parentheses, itself inside two calls
+		x := Bin("+", Name("i"), Num("1"))
+		for i := 0; i < n; i++ {
+			x = Paren(x)
+		}
+		return q(&Op{K: "where", X: Bin("==", Call("tolower", Call("trim", Idx(Name("tags"), x))), StrLit("a", false))}, &Op{K: "count"})
+	case "lets-shadowing":
+		// n lets over four names, so that most of them redefine an earlier one
+		pr := &Program{}
+		for i := 0; i < n; i++ {
+			pr.Stmts = append(pr.Stmts, &Stmt{LetName: id(fmt.Sprintf("v%d", (i*3)%4)), LetX: Num(fmt.Sprint(100 + i))})
+		}
+		pr.Stmts = append(pr.Stmts, &Stmt{Pipe: &Pipe{Table: Ident{Name: "T"}, Ops: []*Op{{K: "where", X: In(Name("a"), Name("v0"), Name("v1"), Name("v2"), Name("v3"))}}}})
+		return pr
+	case "render-props-repeated":
+		op := &Op{K: "render", Name: Ident{Name: "barchart"}, With: true}
+		for i := 0; i < n; i++ {
+			op.Props = append(op.Props, Prop{Name: Ident{Name: []string{"title", "Title", "kind", "title", "xcolumn"}[i%5]}, Val: []*E{StrLit(fmt.Sprint("v", i), false), Num(fmt.Sprint(i)), Name("stacked")}[i%3]})
+		}
+		return q(op)
 	case "joins":
 		var ops []*Op
 		for i := 0; i < n; i++ {
